@@ -210,7 +210,7 @@ LEDGER = [
     ("impl/src/from_str.rs", "from_str::enum_from", "index:vec", 1, G, r"^variants\.len\(\)==1$"),
     ("impl/src/utils.rs", "assert_single_enabled_field", "index:vec", 5, G, r"not\(data\.fields\.len\(\)!=1\)"),
     ("impl/src/error.rs", "error::parse_fields", "unwrap:unwrap:Option", 1, G, r"match state\.derive_type=>DeriveType::Named"),
-    ("impl/src/error.rs", "error::infer_source_field", "index:vec", 1, G, r"not\(fields\.len\(\)!=2\)"),
+    ("impl/src/error.rs", "error::infer_source_field", "index:vec", 1, G, r"not\((?:\w+\.)*fields\.len\(\)!=2\)"),
     ("impl/src/utils.rs", "parse_punctuated_nested_meta", "unwrap:unwrap:Option", 2, G, r"not\(!allowed_attr_params\.iter\(\)\.any\(\|param\|path\.is_ident\(param\)\)\)"),
     ("impl/src/not_like.rs", "enum_output_type_and_content", "unwrap:unwrap:Option", 1, G, r"match variant\.fields=>Fields::Named\("),
     # ---- audited (one reason per row)
@@ -312,6 +312,15 @@ def rule_panic_ledger(ctx):
             spare = [i for i, (lrel, lfn, lkind, n, cls, arg) in enumerate(LEDGER) if lrel == rel and lkind == kind and cls == AU]
             if spare:
                 row = spare[0]
+        if row is None:
+            # the guarded operation moved into another function of the file (an extracted helper): a *guarded* row of the
+            # same file and kind takes it if its guard is re-recognised at the new place (checked again below)
+            fn_ = _fn_for(ctx, rel, line)
+            conds_ = conditions_at(fn_, line) if fn_ else []
+            for i, (lrel, lfn, lkind, n, cls, arg) in enumerate(LEDGER):
+                if lrel == rel and lkind == kind and cls == G and any(re.search(arg, c_) for c_ in conds_):
+                    row = i
+                    break
         construct = f"{rel}::{fnp}:{kind}"
         if row is None:
             ctx.instance(construct)
@@ -337,7 +346,12 @@ def rule_panic_ledger(ctx):
                 conds = conditions_at(fn, line) if fn else []
                 # `not(!(c))` (the else of `if !(c)`) is `c`
                 conds = conds + [m_.group(1) for c_ in conds for m_ in [re.fullmatch(r"not\(!\((.*)\)\)", c_)] if m_] + [m_.group(1) for c_ in conds for m_ in [re.fullmatch(r"not\(!([\w.]+(?:\(\))?)\)", c_)] if m_]
-                if not any(re.search(arg, c) for c in conds):
+                # a dead arm: `match E => P` under `not(matches!(E, P))` (an early return took that case) is never reached
+                dead = any(
+                    (m1 := re.fullmatch(r"match (.+)=>(.+)", c1)) and f"not(matches!({m1.group(1)},{m1.group(2)}))" in conds
+                    for c1 in conds
+                )
+                if not dead and not any(re.search(arg, c) for c in conds):
                     ctx.report(
                         f"guard-lost:{construct}",
                         f"{rel}:{line}",
@@ -623,8 +637,22 @@ def rule_closed_sets(ctx):
     ctx.instance("validate_type:same-scrutinee", sample={"scrutinees": sorted(scr)})
     if len(scr) != 1:
         ctx.report("closed-set:validate_type:scrutinee", ctx.where(vt.file, vt.node), f"`validate_type` checks the tuple arity on one value and builds its result from another ({sorted(scr)}): a type the first accepts as an N-tuple (through parentheses / an invisible group) is returned as ONE type, and `from.rs` reaches `unreachable!()` when it asks for the type of the second field", {})
-    if "syn::Type::Tuple(syn::TypeTuple{elems:elems,..}) if self.len()>1||elems.len()==1=>Either::Left(elems.iter())" not in t.replace("{elems,..}", "{elems:elems,..}").replace("=>{Either::Left(elems.iter())}", "=>Either::Left(elems.iter())") or "other=>Either::Right(iter::once(other))" not in t:
-        ctx.report("closed-set:validate_type", ctx.where(vt.file, vt.node), "`validate_type` no longer yields exactly one type per field (tuples are unpacked only when their arity was validated / is 1): `from.rs` reaches `unreachable!()` for `#[from(())]`", {"text": t[-400:]})
+    # a tuple is unpacked into one type per field only where its arity is known to fit: under the `Equal` arm of the arity
+    # comparison, under `elems.len() == 1` (a single field given a 1-tuple), or under `self.len() > 1` *after* both
+    # mismatching arities were refused; everything else is returned whole (`Either::Right(iter::once(..))`)
+    from . import reject as RJ
+    from .. import guardf as GF
+
+    lefts = [(c_, ps_) for c_, ps_ in A.find(vt.block, "Expr::Call") if A.path_str(c_["func"]) == "Either::Left" and "elems" in A.render(c_)]
+    refused_both = re.search(r"Ordering::Less=>\{?return Err\(|Ordering::Less=>Err\(", t) is not None and re.search(r"Ordering::Greater=>\{?return Err\(|Ordering::Greater=>Err\(", t) is not None
+    bad = []
+    for c_, ps_ in lefts:
+        ft = GF.canon_text(RJ.site_formula(vt, c_, ps_))
+        if "Equal" in ft or re.search(r"elems\.len\(\)(==| ~ )1\b", ft) or (("1<self.len()" in ft or "self.len()>1" in ft) and refused_both):
+            continue
+        bad.append(ft)
+    if not lefts or bad or not re.search(r"Either::Right\(iter::once\(\w+\)\)", t) or not refused_both:
+        ctx.report("closed-set:validate_type", ctx.where(vt.file, vt.node), f"`validate_type` no longer yields exactly one type per field (tuples are unpacked only when their arity was validated / is 1; unpacking sites without such a condition: {bad}): `from.rs` reaches `unreachable!()` for `#[from(())]`", {"text": t[-400:]})
 
 
 def rule_termination(ctx):
@@ -773,3 +801,56 @@ def _structural_descent(ctx, fnp, names):
             if not any(_decreasing(fn, a) for a in args):
                 return f"its call `{A.render(x)[:80]}` (line {fn.file.line(A.span_of(x)[0])}) passes no strict sub-term of its own input"
     return True
+
+
+def _adjacent_splices(toks):
+    """(text, position) of places where two spliced sequences meet with no literal token between them inside a token list:
+    `#a #b`, `#a #( .. ),*`, `#( .. )* #b`"""
+    out = []
+    n = len(toks)
+
+    def splice_end(i):
+        """index just after the splice starting at toks[i] (`#x` or `#( .. ) sep? *`), or None"""
+        if not (A.kind(toks[i]) == "Punct" and A.punct_char(toks[i]) == "#" and i + 1 < n):
+            return None
+        nx = toks[i + 1]
+        if A.kind(nx) == "Ident":
+            return i + 2
+        if A.kind(nx) == "Group" and nx["delimiter"] == "Parenthesis":
+            j = i + 2
+            if j < n and A.kind(toks[j]) == "Punct" and A.punct_char(toks[j]) == "*":
+                return j + 1
+            if j + 1 < n and A.kind(toks[j]) == "Punct" and A.kind(toks[j + 1]) == "Punct" and A.punct_char(toks[j + 1]) == "*":
+                return j + 2
+        return None
+
+    i = 0
+    while i < n:
+        e = splice_end(i)
+        if e is not None:
+            if e < n and splice_end(e) is not None:
+                out.append((A.tokens_text(toks[i : splice_end(e)]), toks[i]))
+            i = e
+            continue
+        if A.kind(toks[i]) == "Group":
+            out.extend(_adjacent_splices(toks[i]["stream"]))
+        i += 1
+    return out
+
+
+def rule_parse_quote_shape(ctx):
+    """PARSE-QUOTE: `parse_quote!` panics when its tokens do not parse, so what it is given must parse for *every* value of the spliced parts: no two spliced sequences stand next to each other without a literal token between them (`#clause #( #bounds ),*`) - whether their concatenation parses then depends on how the first one happens to end (a user's `where T: Clone` has no trailing comma: 'proc-macro derive panicked'). Each splice is delimited by literal punctuation (`#ty: ..::#trait_ident`, `&(#expr)`) or stands alone (a value re-parsed as a whole)."""
+    n = 0
+    for rel, f in sorted(ctx.files.items()):
+        if not rel.startswith("impl/src/"):
+            continue
+        for fn in A.functions(f):
+            if fn.block is None:
+                continue
+            for mac, _ in A.macros(fn.block, ("parse_quote", "parse_quote_spanned")):
+                n += 1
+                key = f"{rel}::{fn.qual}"
+                ctx.instance(f"parse-quote:{key}:{A.tokens_text(mac['tokens'])[:50]}")
+                for txt, tok in _adjacent_splices(mac["tokens"]):
+                    ctx.report(f"parse-quote:{key}:{txt[:40]}", ctx.where(f, tok), f"`parse_quote!` in `{fn.qual}` splices `{txt}` back to back: whether the result parses depends on how the first spliced part ends (e.g. a where-clause with or without a trailing comma), and `parse_quote!` panics when it does not - append to the parsed value (`predicates.extend(..)`) or separate the parts by literal tokens", {})
+    ctx.floor("parse_quote! sites", n, 14)
